@@ -202,6 +202,20 @@ def check_concurrent(case):
         if not res.ok and not res.is_a(NotImplementedError):
             fail("alone-raises", f"job {index} ({job['kind']} of {job['s']!r}) raised on its own: {res!r}")
         alone.append(res)
+        if job["kind"] == "evaluate" and res.ok:
+            # the evaluator set is long-lived within this case (earlier jobs ran on it with other data): every job
+            # must still be judged by its own content evaluation result
+            parts = [p[:2] for p in job["parts"]]
+            chosen = ref.select_part(parts, job["cer"]["rc"])
+            indicator = res.value.requirement_indicator
+            if str(getattr(indicator, "value", indicator)) != ref.normalise_indicator(parts[chosen][0]):
+                fail("reference", f"job {index} ({job['s']!r}, rc={job['cer']['rc']}) run on its own after {index} other jobs on the "
+                     f"same evaluators: indicator {indicator!r}, reference selects part {chosen}")  # fmt: skip
+            expected_fulfilled = ref.part_fulfilled(parts[chosen][1], job["cer"]["rc"])
+            if res.value.requirement_constraint_evaluation_result.requirement_constraints_fulfilled is not expected_fulfilled:
+                fail("reference", f"job {index} ({job['s']!r}, rc={job['cer']['rc']}) run on its own after {index} other jobs on the "
+                     f"same evaluators: fulfilled = {res.value.requirement_constraint_evaluation_result.requirement_constraints_fulfilled!r}, "
+                     f"reference says {expected_fulfilled!r}")  # fmt: skip
         if job["kind"] == "validity" and res.ok:
             verdict = "invalid" if any(ref.validity(p[1]) == "invalid" for p in job["parts"] if p[1] is not None) else "valid"
             if (res.value[0] is True) != (verdict == "valid"):
